@@ -200,13 +200,33 @@ class Net:
         return s
 
     async def _create_connection(self, factory, sock=None, **kw):
+        """asyncio's create_connection(sock=...): the factory runs at once; connection_made and the waiter's result
+        are separate call_soon handles; a cancelled await closes the transport that was made"""
         protocol = factory()
         tr = SimTransport(self.loop, protocol, sock)
-        self.transports.append(tr)
         waiter = self.loop.create_future()
-        self.loop.call_soon(protocol.connection_made, tr)
-        self.loop.call_soon(asyncio.futures._set_result_unless_cancelled, waiter, None)
-        await waiter
+
+        def connection_made():
+            if sock is not None and getattr(sock, "closed", False):
+                # the socket was closed under the transport: registration fails
+                if not waiter.done():
+                    waiter.set_exception(OSError(9, "Bad file descriptor"))
+                return
+            self.transports.append(tr)
+            protocol.connection_made(tr)
+
+        def waiter_done():
+            if not waiter.done():
+                waiter.set_result(None)
+
+        self.loop.call_soon(connection_made)
+        self.loop.call_soon(waiter_done)
+        try:
+            await waiter
+        except BaseException:
+            if tr in self.transports:
+                tr.close()
+            raise
         return tr, protocol
 
     # -- scenario side ----------------------------------------------------
